@@ -790,6 +790,12 @@ class AffB:
     def const(self, k):
         return Aff(None, _num(k))
 
+    def ob_row(self, key, i):
+        return AffVec([Aff.var(v.name) for v in self.ob.objs[key][i, :]])
+
+    def ob_col(self, key, j):
+        return AffVec([Aff.var(v.name) for v in self.ob.objs[key][:, j]])
+
     def matmul(self, A, v):
         return v.__rmatmul__(A)
 
@@ -807,6 +813,8 @@ class OptyxB:
 
     def vec(self, key): return self.objs[key]
     def var(self, key): return self.objs[key]
+    def ob_row(self, key, i): return self.objs[key][i, :]
+    def ob_col(self, key, j): return self.objs[key][:, j]
 
     def const(self, k):
         from optyx.core.expressions import Constant
@@ -850,7 +858,8 @@ def mirror_case(tag, setup, build, corr=True, rel_tol=None):
         return ("build", f"{type(ex).__name__}")
     try:
         eobj, esense, econs = build(AffB(ob), [])
-        expect = {"obj": Aff.lift(eobj), "sense": esense, "cons": [(Aff.lift(e), s) for e, s in econs]}
+        expect = {"obj": Aff.lift(eobj), "sense": esense, "cons": [(Aff.lift(e), s) for e, s in econs],
+                  "bounds": objs.get("_declared") if isinstance(objs, dict) else None}
     except (NotAffine, ZeroDivisionError, OverflowError) as ex:
         expect = None
     return Case(tag, P, expect, corr, rel_tol, arrays)
@@ -886,6 +895,27 @@ def expect_oracle(case, lp):
 
     if lp.sense != ex["sense"]:
         fails.append({"what": "sense differs from the recipe", "got": lp.sense})
+    if ex.get("bounds"):
+        def same_bound(w, g):
+            if w is None or g is None:
+                return w is None and g is None
+            try:
+                return Fraction(float(w)) == Fraction(float(g))
+            except (OverflowError, ValueError):
+                return False
+        channels = [("LPData.bounds", list(lp.bounds))]
+        try:
+            channels.append(("Problem.get_bounds()", list(case.P.get_bounds())))
+        except Exception as exx:  # noqa: BLE001
+            fails.append({"what": f"Problem.get_bounds() raised {type(exx).__name__}"})
+        for chan, got in channels:
+            for i, n in enumerate(names):
+                if n in ex["bounds"] and i < len(got):
+                    wl, wu = ex["bounds"][n]
+                    if not (same_bound(wl, got[i][0]) and same_bound(wu, got[i][1])):
+                        fails.append({"what": f"{chan}: bounds of {n} differ from the declared bounds", "got": repr(tuple(got[i])),
+                                      "want": repr((wl, wu))})
+                        break
     check_row("objective", ex["obj"], list(lp.c), F(lp.c0), 1)
     ub = [(a, s) for a, s in ex["cons"] if s != "=="]
     eq = [(a, s) for a, s in ex["cons"] if s == "=="]
@@ -1137,6 +1167,109 @@ def magnitude_cases(rng):
         for fn, build in forms:
             r = mirror_case(f"mag:{m!r}:{fn}", setup, build, corr=False, rel_tol=1e-12)
             out.append(r if isinstance(r, Case) else (f"mag:{m!r}:{fn}", r))
+    return out
+
+
+def overlap_cases(rng):
+    """OVERLAPPING TERMS: several terms of one expression touching the SAME variables, in every order, with + and −,
+    pairs and triples, as objective, as constraint body and split over the two sides of a constraint"""
+    from optyx import Variable, VectorVariable, MatrixVariable
+
+    def setup():
+        return {"x": VectorVariable("x", 3, lb=0, ub=10), "y": Variable("y"), "M": MatrixVariable("M", 2, 3, lb=0)}
+
+    a, b = np.array([1.0, 2.0, 4.0]), np.array([8.0, -1.0, 0.5])
+    terms = [
+        ("x0", lambda B: B.vec("x")[0]), ("2x1", lambda B: 2 * B.vec("x")[1]), ("-x2", lambda B: -B.vec("x")[2]), ("vs", lambda B: B.vec("x").sum()),
+        ("a@x", lambda B: a @ B.vec("x")), ("b@x", lambda B: b @ B.vec("x")), ("a@rev", lambda B: a @ B.vec("x")[::-1]), ("a2@x[0:2]", lambda B: a[:2] @ B.vec("x")[0:2]),
+        ("b2@x[1:3]", lambda B: b[:2] @ B.vec("x")[1:3]), ("ps1", lambda B: (B.vec("x") ** 1).sum()), ("a@(x+1)", lambda B: a @ (B.vec("x") + 1)),
+        ("k*(b@x)", lambda B: 3 * (b @ B.vec("x"))), ("-(a@x)", lambda B: -(a @ B.vec("x"))), ("vs[::2]", lambda B: B.vec("x")[::2].sum()),
+        ("x@a", lambda B: B.vec("x") @ a), ("(a@x)/2", lambda B: (a @ B.vec("x")) / 2), ("a@x+y", lambda B: a @ B.vec("x") + B.var("y")),
+        ("row", lambda B: B.matmul(np.array([[1.0, 0.0, 2.0], [0.5, 4.0, 0.0]]), B.vec("x"))[1]),
+    ]
+    out = []
+
+    def add(tag, build):
+        r = mirror_case(tag, setup, build)
+        out.append(r if isinstance(r, Case) else (tag, r))
+
+    for i, (n1, t1) in enumerate(terms):
+        for j, (n2, t2) in enumerate(terms):
+            for op in ("+", "-"):
+                def build(B, A, t1=t1, t2=t2, op=op, k=i + j):
+                    comb = (lambda: t1(B) + t2(B)) if op == "+" else (lambda: t1(B) - t2(B))
+                    cons = [B.le(comb(), 6), B.ge(comb(), B.var("y")), B.eq(comb(), 1.5), B.le(t1(B), t2(B)), B.ge(t1(B) + 1, t2(B) - B.vec("x")[k % 3])]
+                    return comb(), ("max" if k % 2 else "min"), cons
+                add(f"overlap:{n1}{op}{n2}", build)
+    # triples and longer sums, every rotation
+    for _ in range(60):
+        pick = [terms[rng.randrange(len(terms))] for _ in range(rng.choice([3, 3, 4, 5]))]
+        signs = [rng.choice([1, -1]) for _ in pick]
+        def build3(B, A, pick=pick, signs=signs):
+            def total():
+                e = None
+                for (nm, t), sg in zip(pick, signs):
+                    v = t(B)
+                    e = (v if sg > 0 else -v) if e is None else (e + v if sg > 0 else e - v)
+                return e
+            return total(), "min", [B.le(total(), 9), B.eq(total() - B.vec("x").sum(), 2)]
+        add("overlap3:" + "".join(("+" if sg > 0 else "-") + nm for (nm, _), sg in zip(pick, signs)), build3)
+    return out
+
+
+DOMAIN_BOUNDS = [(None, None), (0.5, 3.7), (-2.5, None), (None, 7.25), (-3.5, -0.5), (0, 4), (0.0, 1.0), (3, 3), (2.5, 2.5), (-0.0, 2),
+                 (2.999999999, 3.000000001), (-1e16, 1e16), (1e-9, 1e9 + 0.5), (5e-324, 1e300), (-7, 7.999999999999999), (0.2, 0.8),
+                 (np.float64(1.25), np.float32(6.5)), (1, None), (None, -1), (1e16 + 2, 1e17)]
+
+
+def domain_bound_cases(rng):
+    """DOMAIN × BOUNDS: continuous / integer / binary × scalar Variable, VectorVariable, MatrixVariable × non-integral,
+    negative, huge, tiny, None, one-sided, equal and explicit-but-redundant bounds.  The declared bounds are part of the
+    model: LPData.bounds (and Problem.get_bounds()) must equal them exactly for every domain; binary is [0, 1] as documented."""
+    from optyx import Variable, VectorVariable, MatrixVariable
+
+    out = []
+    for di, dom in enumerate(("continuous", "integer", "binary")):
+        for bi, (lb, ub) in enumerate(DOMAIN_BOUNDS):
+            for cont in ("scalar", "vector", "matrix", "mixed"):
+                def setup(dom=dom, lb=lb, ub=ub, cont=cont, bi=bi):
+                    declared = {}
+                    want = (0.0, 1.0) if dom == "binary" else (lb, ub)
+                    objs = {}
+                    if cont in ("scalar", "mixed"):
+                        objs["s"] = Variable("s", lb=lb, ub=ub, domain=dom)
+                        declared["s"] = want
+                    if cont in ("vector", "mixed"):
+                        objs["v"] = VectorVariable("v", 3, lb=lb, ub=ub, domain=dom)
+                        declared.update({f"v[{i}]": want for i in range(3)})
+                    if cont in ("matrix", "mixed"):
+                        objs["M"] = MatrixVariable("M", 2, 2, lb=lb, ub=ub, domain=dom)
+                        declared.update({f"M[{i},{j}]": want for i in range(2) for j in range(2)})
+                    # a continuous companion with other bounds (bounds must not leak between variables)
+                    lb2, ub2 = DOMAIN_BOUNDS[(bi + 7) % len(DOMAIN_BOUNDS)]
+                    objs["c"] = Variable("c", lb=lb2, ub=ub2)
+                    declared["c"] = (lb2, ub2)
+                    objs["_declared"] = declared
+                    return objs
+
+                def build(B, A, cont=cont):
+                    e = 2 * B.var("c")
+                    cons = []
+                    if cont in ("scalar", "mixed"):
+                        e = e + 3 * B.var("s")
+                        cons.append(B.le(B.var("s") + B.var("c"), 10))
+                    if cont in ("vector", "mixed"):
+                        v = B.vec("v")
+                        e = e + np.array([1.0, -1.0, 0.5]) @ v
+                        cons.append(B.ge(v.sum(), -20))
+                        cons.append(B.le(v[::-1][0] - v[0], 4))
+                    if cont in ("matrix", "mixed"):
+                        e = e + B.ob_row("M", 0).sum() - B.ob_col("M", 1).sum()
+                        cons.append(B.eq(B.ob_row("M", 1).sum(), B.var("c")))
+                    return e, ("min" if len(cons) % 2 else "max"), cons
+                tag = f"dombounds:{dom}:{cont}:{lb!r},{ub!r}"
+                r = mirror_case(tag, setup, build)
+                out.append(r if isinstance(r, Case) else (tag, r))
     return out
 
 
@@ -1421,9 +1554,9 @@ def history_checks(case, lp, impl, rng):
         vs = P.variables
         if vs:
             v = vs[rng.randrange(len(vs))]
-            if getattr(v, "domain", "continuous") == "continuous":
+            if getattr(v, "domain", "continuous") in ("continuous", "integer"):
                 old_b = (v.lb, v.ub)
-                v.lb, v.ub = rng.choice([None, -2.5, 0.0, 1e-9]), rng.choice([None, 3.5, 1e16])
+                v.lb, v.ub = rng.choice([None, -2.5, 0.0, 1e-9, 0.5]), rng.choice([None, 3.5, 1e16, 7.25])
                 lp5, t5 = again("bound edit")
                 if lp5 is None or [tuple(b) for b in lp5.bounds] != [(w.lb, w.ub) for w in vs]:
                     fails.append({"what": "bounds edited on a variable object are not the extracted bounds", "got": t5[:400]})
@@ -1471,7 +1604,7 @@ def run(ctx) -> core.Report:
                            "non-trivial = distinct problems for which an LP was extracted")
     problems = [(t, P) for t, P in fixed_problems(rng)] + shared_shallow_problems(rng) + const_fold_problems(rng) + deep_problems(rng, thorough)
     cases = [Case(t, P) for t, P in problems]
-    for fam in (typed_cases, wrapper_cases, view_cases, magnitude_cases):
+    for fam in (typed_cases, wrapper_cases, view_cases, magnitude_cases, overlap_cases, domain_bound_cases):
         for r in fam(rng):
             if isinstance(r, Case):
                 cases.append(r)
@@ -1681,7 +1814,7 @@ def search(ctx, rep):
         f = judge(Case("mismatch:" + str(mm.get("tag")), P), rounds=8)
         if f:
             return f
-    for fam in (typed_cases, wrapper_cases, view_cases, magnitude_cases):
+    for fam in (typed_cases, wrapper_cases, view_cases, magnitude_cases, overlap_cases, domain_bound_cases):
         for r in fam(rng):
             if isinstance(r, Case):
                 f = judge(r)
